@@ -287,7 +287,8 @@ pub fn resolve_model(m: &ModelSpec) -> RModel {
                             Ty::String => {
                                 let mut t = STR_DEFAULTS[d % STR_DEFAULTS.len()];
                                 if t.contains('\'') {
-                                    if m.avoid.quote_default {
+                                    // (a quote in a String default broke every filter on the field: repaired, no longer avoided)
+                                    if false && m.avoid.quote_default {
                                         r.excluded.push("quote-in-string-default");
                                         t = "abc";
                                     } else {
